@@ -309,3 +309,78 @@ def run(P: Program, R: Report, tier: str) -> None:
     from .c05 import id_truthiness
 
     id_truthiness(P, R, "R01.10", modules=("actions", "annotators", "user_actions"))
+    attr_truthiness(P, R, "R01.11")
+    paint_flow_pixels(P, R, A, "R01.12")
+
+
+ATTR_READS = ("get_edge_attr", "get_node_attr", "_get_edge_attr", "_get_node_attr", "get_nodes_attr", "get_edges_attr")
+
+
+def attr_truthiness(P: Program, R: Report, rule: str) -> None:
+    """A primitive that captures attribute VALUES for its inverse may only ask whether a value is absent
+    (`is None`): 0, 0.0, False and '' are legal feature values, and a truthiness test drops them from the
+    capture, so that the inverse restores the element without them."""
+    n = 0
+    for c in P.primitives():
+        for m in c.methods.values():
+            vals: set[str] = set()
+            for s in ast.walk(m.node):
+                if isinstance(s, ast.Assign) and isinstance(s.value, ast.Call) and call_name(s.value) in ATTR_READS:
+                    vals |= {t.id for t in s.targets if isinstance(t, ast.Name)}
+                if isinstance(s, ast.NamedExpr) and isinstance(s.value, ast.Call) and call_name(s.value) in ATTR_READS:
+                    vals.add(s.target.id)
+
+            def is_val(e):
+                return (isinstance(e, ast.Name) and e.id in vals) or (isinstance(e, ast.Call) and call_name(e) in ATTR_READS) or (
+                    isinstance(e, ast.NamedExpr) and is_val(e.value))
+
+            for s in ast.walk(m.node):
+                tests = []
+                if isinstance(s, (ast.If, ast.While, ast.IfExp)):
+                    tests = [s.test]
+                elif isinstance(s, ast.comprehension):
+                    tests = list(s.ifs)
+                elif isinstance(s, ast.BoolOp):
+                    tests = list(s.values[:-1]) if isinstance(s.op, ast.Or) else []
+                leaves = list(tests)
+                while leaves:
+                    x = leaves.pop()
+                    if isinstance(x, ast.BoolOp):
+                        leaves.extend(x.values)
+                    elif isinstance(x, ast.UnaryOp) and isinstance(x.op, ast.Not):
+                        leaves.append(x.operand)
+                    elif is_val(x) or (isinstance(x, ast.Call) and norm(x.func) == "bool" and x.args and is_val(x.args[0])):
+                        n += 1
+                        R.fail(rule, m, x, f"{c.name}: attribute value `{norm(x)[:50]}` is tested for absence with `is None`",
+                               "tested by truthiness: a stored 0 / 0.0 / False / '' is treated as absent, is not captured, and the inverse restores the element without it")
+            if vals:
+                n += 1
+                if not any(o.rule == rule and o.func == m.short and o.status == "violated" for o in R.obligations):
+                    R.ok(rule, m, m.node, f"{m.short}: {len(vals)} attribute-valued local(s), none tested by truthiness", via="lint")
+    R.floor(rule, "primitive methods reading attribute values", n, 2)
+
+
+def paint_flow_pixels(P: Program, R: Report, A: ActionAnalysis, rule: str) -> None:
+    """The paint-driven action runs AFTER its caller changed the segmentation array.  A primitive that is handed no
+    pixels captures them by reading the array (`get_pixels`), i.e. it captures the post-paint state and its inverse
+    cannot put the old mask back.  So on every path of that action, every constructed primitive that takes a
+    `pixels` argument is given one."""
+    c = P.class_named("UserUpdateSegmentation")
+    if c is None:
+        raise AnalysisError("paint-driven user action UserUpdateSegmentation not found")
+    takes = {p.name for p in P.primitives() if "pixels" in A.init_of(p).params}
+    if not takes:
+        raise AnalysisError("no primitive takes a `pixels` argument")
+    init = A.init_of(c)
+    _, results = A.run(init)
+    seen: dict[tuple, object] = {}
+    for pr in results:
+        for seq in pr.sequences(lambda e: e.kind == "construct" and e.name in takes):
+            for e in seq:
+                seen.setdefault((e.name, e.args.get("pixels", "None"), e.xctx if hasattr(e, "xctx") else e.ctx), e)
+    for (name, px, ctx), e in seen.items():
+        via = " via " + " > ".join(ctx) if ctx else ""
+        R.check(px not in ("None", "", None), rule, init, e.where(), f"paint-driven edit: {name}{via} is handed the pixels its caller already changed",
+                f"{name} is constructed without pixels: it reads the already-painted array, captures the wrong mask, and undo does not restore the segmentation",
+                via="interp-args")
+    R.floor(rule, "pixel-taking primitives constructed in the paint-driven action", len(seen), 3)
